@@ -41,6 +41,10 @@ pub struct Variant {
     pub long_field_headers: bool,
     /// binary: byte written for `true` (any non-zero value is true)
     pub binary_true: u8,
+    /// compact: code announcing bool as element / key / value type in container headers. The
+    /// specification names BOOL = 2 there and obliges readers to accept 1 as well (what
+    /// implementations write in practice).
+    pub bool_elem_code: u8,
 }
 
 impl Default for Variant {
@@ -48,6 +52,7 @@ impl Default for Variant {
         Variant {
             long_field_headers: false,
             binary_true: 1,
+            bool_elem_code: 1,
         }
     }
 }
@@ -228,6 +233,13 @@ impl Enc {
     }
 
     /// `in_field`: bool values of struct fields live in the field header and write nothing here.
+    fn elem_code(&self, t: TT) -> u8 {
+        if t == TT::Bool {
+            self.variant.bool_elem_code
+        } else {
+            t.compact_code()
+        }
+    }
     fn compact_value(&mut self, v: &TVal, in_field: bool) {
         match v {
             TVal::Bool(b) => {
@@ -280,9 +292,9 @@ impl Enc {
             }
             TVal::List(t, es) | TVal::Set(t, es) => {
                 if es.len() < 15 {
-                    self.byte(((es.len() as u8) << 4) | t.compact_code(), MarkKind::Type);
+                    self.byte(((es.len() as u8) << 4) | self.elem_code(*t), MarkKind::Type);
                 } else {
-                    self.byte(0xF0 | t.compact_code(), MarkKind::Type);
+                    self.byte(0xF0 | self.elem_code(*t), MarkKind::Type);
                     self.varint(es.len() as u64, MarkKind::Count);
                 }
                 self.depth += 1;
@@ -296,7 +308,7 @@ impl Enc {
                     self.byte(0, MarkKind::Count);
                 } else {
                     self.varint(es.len() as u64, MarkKind::Count);
-                    self.byte((k.compact_code() << 4) | vt.compact_code(), MarkKind::Type);
+                    self.byte((self.elem_code(*k) << 4) | self.elem_code(*vt), MarkKind::Type);
                     self.depth += 1;
                     for (a, b) in es {
                         self.compact_value(a, false);
